@@ -28,7 +28,8 @@ type c08Model struct {
 	ercPre     map[string]*big.Int
 	phase      int
 	deadSupply map[string]sdkmath.Int // coin supply of pairs whose token contract destroyed itself
-	cycle      int                    // 0 undecided, 1 this run drives the withdraw-and-redeposit cycle of the externally-owned token, 2 not
+	reReg      int
+	cycle      int // 0 undecided, 1 this run drives the withdraw-and-redeposit cycle of the externally-owned token, 2 not
 }
 
 func newC08() *c08Model { return &c08Model{holders: map[string]bool{}, broken: map[string]bool{}} }
@@ -441,6 +442,17 @@ func (e EvmEngine) genC08(r *Run) Step {
 		if s, ok := e.bridgeTick(r); ok {
 			return s
 		}
+	}
+	if _, ok := w.App.Erc20Keeper.GetTokenPair(w.Ctx(), "tst"); !ok && m.reReg < 2 && m.phase > 3 && r.Pct(30) {
+		// the pair of the destroyed token is gone, its denomination (bank metadata, maybe coins) is not: somebody deploys
+		// another contract with the same symbol and governance is asked to register it
+		m.reReg++
+		d := r.Rng.IntN(st.NUsers)
+		dk := w.Key("user", d)
+		addr := ethcrypto.CreateAddress(dk.Hex(), w.EthNonce(dk.Hex()))
+		st.Setup = append(st.Setup, Step{Kind: "gov", DtMs: 5000, A: A("what", "register_erc20", "token", addr.Hex())})
+		r.Probe("re-registration-of-a-removed-pair's-symbol")
+		return blk(Tx{K: "eth_call", S: KeyName("user", d), A: A("to", "", "data", hex.EncodeToString(softTokenInit("Soft token again", "TST", 18)), "value", "0"), Gas: 5_000_000})
 	}
 	if m.cycle == 0 {
 		m.cycle = 2
